@@ -98,6 +98,8 @@ def worker(version, args):
                 t.new_effect.create_object(object_list_unit_id=4, source_player=1, location_x=1, location_y=2)
                 t.new_condition.timer(timer=5 + i)
                 t.new_condition.own_objects(quantity=3, object_list=4, source_player=2)
+            tm.add_trigger("trig3")
+            tm.trigger_display_order = [2, 0, 3, 1]        # a display order with a 3-cycle: display index != trigger index
             tm.add_variable("var", 5)
             for p in (0, 1, 1, 3, 8):
                 scn.unit_manager.add_unit(player=p, unit_const=4, x=1.5, y=2.5, rotation=1.5)
@@ -157,9 +159,20 @@ def worker(version, args):
         for i in rng.sample(range(size * size), min(6, size * size)):
             for a, f in TILE_FIELDS.items():
                 edits.append(("tile", i, a, scn.map_manager.terrain[i], [f"Map.terrain_data[{i}].{f}"]))
+        from AoE2ScenarioParser.objects.support.trigger_select import TriggerSelect as TS
+        order = list(tm.trigger_display_order)
         for ti, t in enumerate(tm.triggers):
-            for a, f in TRIGGER_FIELDS.items():
-                edits.append(("trigger", ti, a, t, [f"Triggers.trigger_data[{ti}].{f}"]))
+            for k, (a, f) in enumerate(TRIGGER_FIELDS.items()):
+                # the same trigger designated by index, by display index and by object reference (C07: they agree)
+                mode = k % 3
+                if mode == 0:
+                    obj = tm.get_trigger(TS.index(ti)); how = "index"
+                elif mode == 1:
+                    d = order.index(ti)
+                    obj = tm.get_trigger(TS.display(d)); how = f"display({d})"
+                else:
+                    obj = tm.get_trigger(TS.trigger(t)); how = "object"
+                edits.append(("trigger", f"{ti} via {how}", a, obj, [f"Triggers.trigger_data[{ti}].{f}"]))
             for ei, e in enumerate(t.effects):
                 for a in rng.sample(EFFECT_INT_ATTRS, 8) + ["message", "sound_name", "selected_object_ids"]:
                     f = a
@@ -179,13 +192,20 @@ def worker(version, args):
             rest = [e for e in edits if e[0] != "player"]
             rng.shuffle(rest); rng.shuffle(keep)
             edits = keep[: args["nedits"] // 2] + rest[: args["nedits"] - min(len(keep), args["nedits"] // 2)]
-        for kind, slot, attr, obj, pred in edits:
+        edits = [(k_, s_, a_, o_, p_, z_) for (k_, s_, a_, o_, p_) in edits for z_ in (False, True)]
+        for kind, slot, attr, obj, pred, zero in edits:
             with warnings.catch_warnings():
                 warnings.simplefilter("ignore")
                 st, old = common.outcome(getattr, obj, attr)
             if st != "ok":
                 continue                                # attribute not available in this version (C15)
             new = _other_value(attr, old, rng)
+            if zero:
+                # second pass: the falsy value of the attribute's type (0 / False / "" / []), when it is a change
+                ov = getattr(old, "value", old)
+                new = 0 if isinstance(ov, int) and not isinstance(ov, bool) and ov != 0 else (0.0 if isinstance(ov, float) and ov != 0.0 else None)
+                if attr in ("civilization", "architecture_set", "victory_condition"):
+                    new = None
             if new is None:
                 continue
             with warnings.catch_warnings():
@@ -197,7 +217,7 @@ def worker(version, args):
             with warnings.catch_warnings():
                 warnings.simplefilter("ignore")
                 setattr(obj, attr, old)
-            key = f"{kind}:{slot}:{attr}"
+            key = f"{kind}:{slot}:{attr}:{'zero' if zero else 'other'}"
             replay = {"version": version, "object": kind, "slot": slot, "attribute": attr, "old": repr(old)[:60], "new": repr(new)[:60]}
             if st != "ok":
                 R.case(key=key, nontrivial=True, tags=(f"obj:{kind}", "save:raises", f"raises:{kind}.{attr}"))
@@ -272,7 +292,7 @@ def _other_value(attr, old, rng):
 def run(ctx):
     R = common.Result(RULE)
     vs = bases.versions()
-    args = {"seed": ctx.seed, "driver": ctx.driver_path, "nedits": ctx.budget(120, 0) if ctx.quick else 0}
+    args = {"seed": ctx.seed, "driver": ctx.driver_path, "nedits": ctx.budget(110, 0) if ctx.quick else 0}
     per = vworker.run_versions("h_c05", "worker", vs, args)
     cc.merge_results(R, per, "C05")
     R.extra["versions"] = vs
